@@ -106,7 +106,12 @@ def _alpha_notes() -> Dict[str, Any]:
                     "is read under its old name in every module before the obligations are generated -- a bijective renaming, nothing else is changed"}
 
 
-PRESUPPOSES = {"C10": ["C01"]}
+# property -> the properties that PRESUPPOSE it (every obligation serving the key also serves them):
+#  C10 (separator-free fields)            <- C01: positional matching of the k-th name against the k-th operand
+#  C07 (every node is unit-aligned)       <- C01..C06: an operator / $not / capture assumes that its neighbours end on a unit boundary
+#  C14 (the configuration is this rule's) <- C01..C07, C11, C12: flags, range and sections in effect are those of the rule being run
+PRESUPPOSES = {"C10": ["C01"], "C07": ["C01", "C02", "C03", "C04", "C05", "C06"],
+               "C14": ["C01", "C02", "C03", "C04", "C05", "C06", "C07", "C11", "C12"]}
 DRIVER_ALSO = {"C01", "C02", "C03", "C04", "C05", "C06", "C07", "C20"}
 MEM_LIMIT = int(os.environ.get("VERIF_MEM_GB", "6")) << 30
 SCEN_TIMEOUT = int(os.environ.get("VERIF_SCENARIO_TIMEOUT", "300"))
